@@ -4,7 +4,9 @@ RESERVED = (b"content.",)
 
 
 def user_entries(tree):
-    return {k: v for k, v in tree.items() if not k.startswith(RESERVED) and not k.endswith(b".lock") and not (k.startswith(b"content.") and k.endswith(b".tmp"))}
+    """entries that belong to the array: content copies / lock / tmp files and files excluded by the
+    harness's only rule (*.unrecoverable, left behind by earlier fix runs of a history) are not part of it"""
+    return {k: v for k, v in tree.items() if not k.startswith(RESERVED) and not k.endswith(b".lock") and not k.endswith(b".unrecoverable")}
 
 
 def inode_groups(tree):
